@@ -29,7 +29,8 @@ RULE = ("cases = list of <=25 ops: set_bounds (any of the seven properties, "
         "tool_change, three temperature setters, three waiting halts with S or "
         "R; tracer shapes crossing the box; modal settings in between (feed "
         "mode incl. inverse time, extrusion mode, length/temperature/time units, "
-        "plane); every bounded value drawn from "
+        "plane); an axes box set so that the current position lies outside it; "
+        "every bounded value drawn from "
         "{min, max, nextafter(min,-inf), nextafter(max,+inf), interior, far "
         "outside, NaN, +-inf, the value last given to that property (whatever "
         "limits were in force then)} of the bound in force; non-trivial = a value "
@@ -183,9 +184,17 @@ def op_strategy(only_bounds=False):
                          ("set_plane", "xy")]).map(
             lambda t: {"op": "mode", "call": t[0], "arg": t[1]}),
     )
+    # an axes box set so that the CURRENT position lies outside it on one axis
+    # (limits tightened while the head is parked outside): every later command
+    # that keeps that axis where it is still targets a point outside the box
+    excl = st.tuples(st.integers(0, 2), st.floats(min_value=0.5, max_value=20),
+                     st.floats(min_value=1, max_value=40), st.booleans()).map(
+        lambda t: {"op": "box_excluding_position", "axis": t[0], "gap": t[1], "w": t[2],
+                   "below": t[3]})
     if only_bounds:
         return st.one_of(sb, sb, sb, box)
-    return st.one_of(sb, sb, box, box, motion, motion, motion, scalar, scalar, misc)
+    return st.one_of(sb, sb, box, box, motion, motion, motion, scalar, scalar, misc,
+                     motion, motion, scalar, excl)
 
 
 BOUND_OF = {"set_feed_rate": "feed-rate", "set_tool_power": "tool-power",
@@ -239,6 +248,11 @@ def run_case(case, cl=None):
                 g.set_bounds(op["name"], op["lo"], op["hi"])
             except (ValueError, TypeError):
                 cl.add("set_bounds_rejected")
+            continue
+        if name == "box_excluding_position":
+            from vf.common import box_excluding_position
+            box_excluding_position(g, op)
+            cl.add("box_set_with_position_outside")
             continue
         if name == "set_distance_mode":
             g.set_distance_mode(op["mode"])
